@@ -31,7 +31,11 @@ NOT covered here: two different symbols in one instruction, symbols plus offsets
 
 Mutations of the real code tried on scratch copies:
   u1 code6809.c DecodeALU passes OpcodeLen 1 for page-2/3 opcodes (the seeded change)   suite 0 fail   caught: 6809
-     ldy/lds/sty/sts/cmpy/cmpd/cmpu/cmps la,pcr / la,pc / [la,pcr] denote la+1
+     ldy/lds/sty/sts/cmpy/cmpd/cmpu/cmps la,pcr / la,pc / [la,pcr] denote la+1 (631 programs)
+  u2 code68.c BRSET/BRCLR: PrefCnt not counted (- (EProgCounter() + 3 + AdrCnt))          caught: 68HC11 brset/brclr n,y
+  u3 code65.c BBRn/BBSn: - (EProgCounter() + 2) instead of + 3                            caught: 65C02 bbr0/bbr7/bbs3
+  u4 code68k.c MOVEM: RelPos = 2 instead of 4 (mask word not counted)                     caught: 68000 movem.l la(pc),..
+  (u2-u4 in one scratch copy, this phase alone: 113 programs reported, the three groups above and nothing else)
 """
 import json
 import os
